@@ -934,6 +934,9 @@ def run(ctx):
                 for st_ in inf.get("unexplained_timeout_sites", []):
                     hang_sites[st_] = hang_sites.get(st_, 0) + 1
             for iss in a["issues"]:
+                if iss[1] == "hang:base-database-load" and iss[1] in seen:
+                    seen[iss[1]] += 1                              # already confirmed and reported once in this run
+                    continue
                 if iss[1] == "hang:base-database-load":
                     rec2 = run_one(plain, c, timeout)             # confirm alone on the plain build: an overloaded machine is not a hang
                     if rec2 is not None and any(ln.startswith("L0 ") for ln in rec2["lines"]):
